@@ -67,6 +67,63 @@ theorem ext_upolyRoundTrip_define {q p n : Nat} {g : List Nat} (hq : q < 2 ^ 64)
   have := ext_upoly_roundtrip_beq M hn63 L hL hv hun mod hf hlen
   rwa [uToStrN_default] at this
 
+/-- `BPolyRoundTrip` clause 1 (default notation) over every prime field `primefield.Define`
+    returns: every order, with or without ideal -/
+theorem prime_bpolyRoundTrip_define {p : Nat} (hq : p < 2 ^ 64)
+    (hd : Define.prime p = .ok (.prime p)) {x y : String} (hx : AdmissibleName x)
+    (hy : AdmissibleName y) (hxy : Unconfusable x y) (ord : Order)
+    (ideal : Option (List (BPoly Nat))) {f : BPoly Nat}
+    (hf : BValid (primeSpec p) { F := primeOps p, ord := ord, varNames := (x, y), ideal := ideal } f) :
+    ∃ g, BPoly.parse { F := primeOps p, ord := ord, varNames := (x, y), ideal := ideal }
+        (BPoly.toStr { F := primeOps p, ord := ord, varNames := (x, y), ideal := ideal } f) =
+          .ok (some g) ∧
+      BPoly.equal (primeOps p) f g = true := by
+  obtain ⟨_, hp, h32⟩ := (C03.define_prime_iff hq _).1 hd
+  have := prime_bpoly_roundtrip hp h32 hx hy hxy ord ideal hf
+  rwa [bToStrN_default] at this
+
+/-- … over every binary field `binfield.Define` returns, any admissible field variable `w` -/
+theorem bin_bpolyRoundTrip_define {q n m : Nat} {w : String} (hq : q < 2 ^ 64)
+    (hd : Define.bin Gen.dbText q = .ok (.bin n m)) (hw : AdmissibleName w)
+    {x y : String} (hx : AdmissibleName x) (hy : AdmissibleName y) (hxy : Unconfusable x y)
+    (hxw : Unconfusable x w) (hyw : Unconfusable y w) (ord : Order)
+    (ideal : Option (List (BPoly Nat))) {f : BPoly Nat}
+    (hf : BValid (binSpec n m w) { F := binOps n m w, ord := ord, varNames := (x, y), ideal := ideal } f) :
+    ∃ g, BPoly.parse { F := binOps n m w, ord := ord, varNames := (x, y), ideal := ideal }
+        (BPoly.toStr { F := binOps n m w, ord := ord, varNames := (x, y), ideal := ideal } f) =
+          .ok (some g) ∧
+      BPoly.equal (binOps n m w) f g = true := by
+  obtain ⟨n', m', cs, he, _, h1, h32, _, _, ⟨hm1, hm2⟩, _, _, hF, _⟩ :=
+    C01.define_bin_lawful hq hd
+  injection he with e1 e2
+  subst e1 e2
+  have := bin_bpoly_roundtrip (BinField.binLawful h1 (by omega) hm1 hm2 w) (fun _ => Iff.rfl)
+    hw (by omega) hx hy hxy hxw hyw ord ideal hf
+  rwa [bToStrN_default] at this
+
+/-- … over every extension field `extfield.Define` returns -/
+theorem ext_bpolyRoundTrip_define {q p n : Nat} {g : List Nat} (hq : q < 2 ^ 64)
+    (hd : Define.ext Gen.dbText q = .ok (.ext p n g))
+    {x y : String} (hx : AdmissibleName x) (hy : AdmissibleName y) (hxy : Unconfusable x y)
+    (hxw : Unconfusable x "a") (hyw : Unconfusable y "a") (ord : Order)
+    (ideal : Option (List (BPoly (UPoly Nat)))) {f : BPoly (UPoly Nat)}
+    (hf : BValid (extSpec p n g) { F := extOps p n g, ord := ord, varNames := (x, y), ideal := ideal } f) :
+    ∃ g', BPoly.parse { F := extOps p n g, ord := ord, varNames := (x, y), ideal := ideal }
+        (BPoly.toStr { F := extOps p n g, ord := ord, varNames := (x, y), ideal := ideal } f) =
+          .ok (some g') ∧
+      BPoly.equal (extOps p n g) f g' = true := by
+  obtain ⟨p', n', g', hF, h32, he, hp, hqe, hn, _, M, _, _, hF2, L, hL, _⟩ :=
+    C01.define_ext_lawful hq hd
+  injection he with e1 e2 e3
+  subst e1 e2 e3
+  have hn63 : n ≤ 2 ^ 63 := by
+    have h1 : 2 ^ n ≤ p ^ n := Nat.pow_le_pow_left hp.two_le n
+    have h2 : 2 ^ n < 2 ^ 64 := by omega
+    have := (Nat.pow_lt_pow_iff_right (by norm_num : 1 < 2)).1 h2
+    omega
+  have := ext_bpoly_roundtrip M hn63 L hL hx hy hxy hxw hyw ord ideal hf
+  rwa [bToStrN_default] at this
+
 -- non-vacuity (as in `Props/C01.lean`: the lookup fact of the real database as hypothesis)
 example (h : Conway.lookupIn Gen.dbText 2 3 = .ok [1, 1, 0, 1]) :
     ∃ g, UPoly.parse { F := binOps 3 11 "b", varName := "X", modulus := none }
